@@ -24,6 +24,7 @@ var c17Sources = []string{
 	"www.ck", "a.www.ck", "example.ck", "a.example.ck", "ck", "city.kobe.jp", "a.city.kobe.jp", "example.kobe.jp", "a.example.kobe.jp", "kobe.jp", "jp",
 	"github.io", "a.github.io", "b.a.github.io", "io", "blogspot.com", "a.blogspot.com", "b.a.blogspot.com", "example.local", "local", "a.example.local",
 	"1.2", "1.2.1.2", "2.1", "example", "com", "www", "a.io", "example.uk", "example.jp", "a.a",
+	"m7.m6.m5.m4.m3.m2.m1.example.com", "n9.n8.n7.n6.n5.n4.n3.n2.n1.a.github.io",
 }
 
 func refDomain(host string) string {
@@ -184,7 +185,8 @@ func init() {
 				return true
 			})
 		}
-		hosts = append(hosts, "Example.COM", "WWW.Example.co.UK", "1.2.3.4", "127.0.0.1", "xn--e1afmkfd.xn--p1ai", "a-b.example.com", "a_b.example.com", "a.com.example.com", "x.co.uk.shop.co.uk", "a.b.a.b", "10.4.3.4")
+		hosts = append(hosts, "Example.COM", "WWW.Example.co.UK", "1.2.3.4", "127.0.0.1", "xn--e1afmkfd.xn--p1ai", "a-b.example.com", "a_b.example.com", "a.com.example.com", "x.co.uk.shop.co.uk", "a.b.a.b", "10.4.3.4",
+			"l5.l4.l3.l2.l1.example.com", "l7.l6.l5.l4.l3.l2.l1.example.co.uk", "l9.l8.l7.l6.l5.l4.l3.l2.l1.city.kobe.jp", "a.b.c.d.e.f.g.h.i.github.io", "a.b.c.d.e.f.g.local", "x9.x8.x7.x6.x5.x4.x3.x2.x1.www.ck")
 		exhaustive := true
 		var mu sync.Mutex
 		c.parallel(len(hosts), func(i int) {
